@@ -566,5 +566,11 @@ def run(chk, replay):
                 core.jdump([e for e in ev if e.get("root") not in ("out", None)][:3]))
             chk.violation(sigs, detail, {"case": m["case"], "fault_at": m["fault_at"], "late": bool(m.get("late")), "events": ev[:200]},
                           klass="%s/%s" % (m["case"], ",".join(sorted(set(bad[t])))))
+    if not replay:
+        # histories across working directories (PoolEnv.tla): what a run writes lies under ITS output, the plotfiles of the other
+        # directories and the outputs of earlier runs stay as they are
+        from harness import poolenv
+        for t_ in ['combine', 'colander']:
+            poolenv.tool_phase(chk, t_, cap=(8, 80))
     chk.extra["runs"] = tid
     chk.extra["trace_events"] = len(lines)
